@@ -40,6 +40,11 @@ theorem prefix_root_mem (evs evs' : List Event) : (run evs).root ∈ (run (evs +
   rw [hl]
   exact List.mem_append_right _ (root_mem_history _)
 
+theorem batchesOf_app (a b : List Event) : batchesOf (a ++ b) = batchesOf a ++ batchesOf b := by
+  induction a with
+  | nil => rfl
+  | cons e t ih => cases e <;> simp [batchesOf, ih]
+
 /-! ## `noEmpty` along a history -/
 
 theorem liveSize_pos_iff (ss : SegSnap) : 0 < ss.liveSize ↔ ss.deleted.length < ss.docs.length := by
